@@ -676,7 +676,28 @@ func ruleSnapshotComplete(r *Report) {
 		}
 		return false
 	}
+	putVal, _ := r.P.ConstVal("commit", "Put")
 	for _, fn := range fns {
+		// what a Snapshot writes is restored (and back-filled into a late index) by Apply: it is a Put
+		var badOp ssa.Instruction
+		nOp := 0
+		for _, g := range deepFuncs(fn) { // closures handed to bitmap.Range included
+			allInstrs(g, func(ins ssa.Instruction) {
+				cc, _, _ := callCommon(ins)
+				if cc == nil || len(cc.Args) < 2 || !isWrite(ins) || cc.StaticCallee() == nil || !isNamed(cc.Args[1].Type(), CommitPath, "OpType") {
+					return
+				}
+				if k, isC := norm(cc.Args[1]).(*ssa.Const); isC && k.Value != nil {
+					nOp++
+					if k.Value.String() != putVal {
+						badOp = ins
+					}
+				}
+			})
+		}
+		if nOp > 0 {
+			h.Check(badOp == nil, fnName(fn)+"/op", r.P.InstrPos(badOp), "the snapshot consists of Put operations", "this Snapshot writes an operation type other than Put: on restore the value goes through the column's merge function (or is deleted) instead of being stored")
+		}
 		for _, g := range deepFuncs(fn) {
 			for _, rc := range callsWhere(g, func(_ ssa.Instruction, cc *ssa.CallCommon) bool {
 				if !methodOn(cc, "github.com/kelindar/bitmap", "Bitmap", "Range") || len(cc.Args) != 2 {
@@ -792,6 +813,27 @@ func ruleExtremeFold(r *Report) {
 						}
 					}
 				})
+				// the comparison is between the block's result and the extreme so far (the cell the
+				// result is stored into): `v < v` or `min < min` decide nothing
+				isBest := func(v ssa.Value) bool {
+					ld, isLd := strip(v).(*ssa.UnOp)
+					return isLd && ld.Op == token.MUL && sameExpr(ld.X, st.Addr)
+				}
+				var cmpBest *ssa.BinOp
+				allInstrs(c.Parent(), func(i2 ssa.Instruction) {
+					if bo, isB := i2.(*ssa.BinOp); isB && (isBest(bo.X) || isBest(bo.Y)) {
+						switch bo.Op {
+						case token.LSS, token.GTR, token.LEQ, token.GEQ:
+							cmpBest = bo
+						}
+					}
+				})
+				if cmp == nil && cmpBest != nil {
+					ok, bad = false, cmpBest // the extreme so far is compared, but not with the block's result
+				}
+				if cmp != nil && (fromCall(cmp.X) && fromCall(cmp.Y) || (cmpBest != nil && !isBest(cmp.X) && !isBest(cmp.Y))) {
+					ok, bad = false, cmp // the block's result is compared, but not with the extreme so far
+				}
 				if cmp == nil {
 					return
 				}
